@@ -13,7 +13,7 @@ def _thorough_only(rule):
 
 PROPS = {
     "C16": {
-        "rules": [formatting.rule_pgram, formatting.rule_lex, enums.rule_enum_surface,
+        "rules": [formatting.rule_pgram, formatting.rule_lex, formatting.rule_litfmt, enums.rule_enum_surface,
                   traversal.rule_trav(["scc_printer::types::Print"])],
         "text": "Printer/grammar agreement decided statically: every Fun syntax node's Print impl is folded into its token templates "
                 "(abstract interpretation of MIR with the `pretty` builder modelled), each template is re-lexed with the grammar's "
@@ -24,7 +24,7 @@ PROPS = {
                         "round trip over all widths/indents is not enumerated; the token-level argument is layout-independent"],
     },
     "C15": {
-        "rules": [typing_rules.rule_zip, typing_rules.rule_dup, typing_rules.rule_nodup, typing_rules.rule_result, typing_rules.rule_clause_exits, typing_rules.rule_lookup,
+        "rules": [typing_rules.rule_zip, typing_rules.rule_dup, typing_rules.rule_nodup, typing_rules.rule_result, typing_rules.rule_clause_exits, typing_rules.rule_lookup, typing_rules.rule_checkall,
                   traversal.rule_trav(["fun::typing::check::Check"]), annot.rule_annot_check, panics.rule_panic(("A",))],
         "text": "Rejection discipline of the type checker, decided for every program: zips are length-guarded (R-ZIP), declarations are "
                 "inserted only after a duplicate check that returns Err (R-DUP), binder lists are checked for duplicates before use "
@@ -124,7 +124,7 @@ PROPS = {
                         "ISA semantics table in analysis/isa.py (x86-64: mov/add/sub/imul/idiv/cqo/cmp/jcc/push/pop; AArch64; RV64)"],
     },
     "C04": {
-        "rules": [shape.rule_shape, shrinking.rule_chirality, shrinking.rule_samesrc, shrinking.rule_declsrc, shrinking.rule_idcmp, enums.rule_enum_maps({"core2axcut"}),
+        "rules": [shape.rule_shape, shrinking.rule_chirality, shrinking.rule_samesrc, shrinking.rule_declsrc, shrinking.rule_idcmp, shrinking.rule_cutvar, enums.rule_enum_maps({"core2axcut"}),
                   fresh.rule_fresh, fresh.rule_maxid, traversal.rule_trav(["core2axcut::shrinking::Shrinking", "scc_core_lang::traits::substitution::SubstVar",
                                                                           "scc_core_lang::traits::typed_free_vars::TypedFreeVars"]),
                   inputs.rule_useall_for(["core2axcut"], 35)],
@@ -145,7 +145,7 @@ PROPS = {
         "assumptions": ["the degree of the polynomial is not decided; growth from other sources than duplicated continuations was not found by reading"],
     },
     "C02": {
-        "rules": [hygiene.rule_hyg, hygiene.rule_seed, hygiene.rule_binders, hygiene.rule_fvscope, inputs.rule_useall_for(["fun2core"], 50), enums.rule_enum_maps({"fun2core"}), enums.rule_enum_surface,
+        "rules": [hygiene.rule_hyg, hygiene.rule_seed, hygiene.rule_binders, hygiene.rule_fvscope, hygiene.rule_seq, inputs.rule_useall_for(["fun2core"], 50), enums.rule_enum_maps({"fun2core"}), enums.rule_enum_surface,
                   traversal.rule_trav(["fun::traits::used_binders::UsedBinders", "fun2core::compile::Compile"])],
         "text": "Hygiene and naming clauses of the Fun->Core translation, decided for every program at once: (R-HYG) the incoming "
                 "consumer is never placed under a binder copied verbatim from the source; (R-SEED) fresh names are seeded from the "
@@ -158,7 +158,7 @@ PROPS = {
         "rules": [traversal.rule_trav(["scc_core_lang::traits::substitution::Subst", "scc_core_lang::traits::substitution::SubstVar",
                                    "scc_core_lang::traits::uniquify::Uniquify", "scc_core_lang::traits::focus::Focusing",
                                    "scc_core_lang::traits::focus::Bind", "scc_core_lang::traits::typed_free_vars::TypedFreeVars"]), wiring.rule_wire_intra, shape.rule_shape,
-                  fresh.rule_fresh, fresh.rule_maxid, fresh.rule_shadow, focus.rule_bindorder, inputs.rule_useall_for(["scc_core_lang"], 100)],
+                  fresh.rule_fresh, fresh.rule_maxid, fresh.rule_shadow, fresh.rule_substscope, focus.rule_bindorder, inputs.rule_useall_for(["scc_core_lang"], 100)],
         "text": "Structural necessary conditions of focusing: every Subst/SubstVar/Uniquify/Focusing/Bind/TypedFreeVars impl of Core "
                 "visits every subterm (R-TRAV), uniquify dominates the focusing of definitions (R-WIRE), and only producer-only "
                 "shapes reach the `cannot happen` arms of Term<Cns> (R-SHAPE). Does not decide evaluation order or semantic equivalence.",
@@ -175,7 +175,7 @@ PROPS = {
     },
     "C12": {
         "rules": [panics.rule_panic(("B",)), annot.rule_annot_check, annot.rule_annot_freevars, shape.rule_shape,
-                  traversal.rule_trav(["fun::typing::check::Check"]), wiring.rule_wire_intra, hygiene.rule_fvscope],
+                  traversal.rule_trav(["fun::typing::check::Check"]), wiring.rule_wire_intra, hygiene.rule_fvscope, shrinking.rule_cutvar],
         "text": "'No internal failure' clause: every panic-capable site reachable from the post-check stage entry points is audited, "
                 "and the annotation/shape classes are discharged by checked rules rather than trusted: Check sets every annotation on "
                 "every Ok path and visits every subterm (R-ANNOT, R-TRAV), free-variable and closure-environment annotations are set "
@@ -193,13 +193,14 @@ PROPS = {
         "assumptions": ["behavioural equivalence itself is the conjunction of C02-C06, C13, C14, C20 and of semantic facts not decided statically"],
     },
     "C18": {
-        "rules": [panics.rule_panic(("A", "B")), panics.rule_gact, termination.rule_descent],
+        "rules": [panics.rule_panic(("A", "B")), panics.rule_gact, termination.rule_descent, termination.rule_loops],
         "text": "Panic-site closure: every panic-capable construct reachable in the resolved whole-workspace call graph from the "
                 "parser, the type checker and every later stage entry point is enumerated and must be an audited row; zone A "
                 "(everything reachable from parse_module/parse_term/Program::check, including all 399 grammar actions) accepts "
                 "only locally discharged rows. Decides 'never panics on user input' for all inputs at once. Termination: R-DESCENT decides that "
                 "every recursion cycle of the pipeline's call graph is a structural descent (each recursive call receives a part of its "
-                "caller's input, or an audited renaming of one), so the recursion depth is bounded by the program; loops are not examined.",
+                "caller's input, or an audited renaming of one), so the recursion depth is bounded by the program; R-LOOP decides that every loop is left through the exhaustion of a finite "
+                "iterator or popped collection (three audited searches excepted).",
         "assumptions": ["lalrpop's generated state machine and third-party crates do not panic",
                         "LOOKUP rows: checked programs are well-scoped (name lookups succeed)",
                         "stack overflow and allocation failure are outside the property ('within stack limits')"],
